@@ -10,6 +10,7 @@ against the independent ordering model as it happens;
 from __future__ import annotations
 
 import copy
+import zlib
 import datetime
 import itertools
 from decimal import Decimal
@@ -94,6 +95,8 @@ def cases(ctx):
         n = rng.randint(0, 7)
         t = [['k', 'j', 'id']] + [[rng.choice(pool), rng.choice(pool), 'r%d' % r] for r in range(n)]
         c = {'kind': which, 'table': t, 'key': rng.choice(['k', ('k', 'j'), None, 0]), 'reverse': rng.random() < 0.4}
+        if which in ('sort', 'issorted') and i % 15 < 5:
+            c['key'] = ('j', 'k')        # a compound key whose fields are not in row order
         if which == 'select':
             c['value'] = rng.choice(pool + [rng.choice(flat)])
             c['value2'] = rng.choice(pool + [rng.choice(flat)])
@@ -129,6 +132,17 @@ def cases(ctx):
                 for r_ in t[1:]:
                     r_[2] = 'same'
                     r_[1] = pool[0]
+            if zlib.crc32(repr(t).encode('utf-8', 'backslashreplace')) % 4 == 0:
+                # ragged rows: a key cell the row does not have is ordered as None and ties with an explicit None (so, often, the
+                # next row is the same row with its absent cells spelt out as None)
+                c['ragged'] = True
+                for j_ in range(len(t) - 1, 0, -1):
+                    if zlib.crc32(repr((j_, t[j_])).encode('utf-8', 'backslashreplace')) % 3 == 0:
+                        full = list(t[j_])
+                        cut = zlib.crc32(repr(full).encode('utf-8', 'backslashreplace')) % 3
+                        del t[j_][cut:]
+                        if cut and j_ % 2:
+                            t.insert(j_ + 1, t[j_] + [None] * (3 - cut))
             if rng.random() < 0.5:
                 # make it (nearly) sorted so that both verdicts are frequent
                 idx = gen.resolve_key(t[0], c['key']) if c['key'] is not None else [0, 1, 2]
@@ -302,6 +316,8 @@ def _judge_online(case, ctx):
                     c = -c
                 if c > 0 or (strict and c == 0):
                     exp = False
+            if case.get('ragged') and any(len(r) < 3 for r in rows):
+                ctx.seen('online:issorted-with-missing-key-cells')
             got = util.attempt(lambda: petl.issorted(table, key, reverse=reverse, strict=strict))
             if isinstance(got, util.Raised):
                 out.append({'kind': 'exception', 'fn': 'issorted', 'detail': got.text, 'where': got.where, 'nrows': len(rows), 'key': key})
